@@ -82,9 +82,10 @@ static uint32_t mk_rc(void) { uint32_t r = nondet_u32(); __CPROVER_assume(r >= 1
 #define M_UNION 16u
 #define M_TUPLE 32u
 #define M_CLOSURE 64u
+#define M_HASHMAP 512u  /* hashmap with at most one entry per bucket chain */
 #define M_INT 128u      /* TAG_INT only */
 #define M_BOOL 256u     /* TAG_BOOL only */
-#define M_ANY 127u
+#define M_ANY (127u | M_HASHMAP)
 #ifndef VERIF_ARR_CAP
 #define VERIF_ARR_CAP (1u << 20)   /* arrays of any length up to 2^20; obligations whose handler loops over the elements pin a small cap and are labelled bounded */
 #endif
@@ -103,9 +104,9 @@ static NanoValue mk_value(unsigned mask, uint32_t *len_out)
 {
     if (mask == M_INT) { NanoValue iv = {0}; iv.tag = TAG_INT; iv.as.i64 = nondet_i64(); *len_out = 0; return iv; }
     if (mask == M_BOOL) { NanoValue bv = {0}; bv.tag = TAG_BOOL; bv.as.boolean = nondet_bool(); *len_out = 0; return bv; }
-    unsigned kind = nondet_u8();
+    unsigned kind = nondet_u16();
     __CPROVER_assume(kind == M_SCALAR || kind == M_STRING || kind == M_ARRAY || kind == M_STRUCT || kind == M_UNION ||
-                     kind == M_TUPLE || kind == M_CLOSURE);
+                     kind == M_TUPLE || kind == M_CLOSURE || kind == M_HASHMAP);
     __CPROVER_assume((kind & mask) != 0);
     *len_out = 0;
     NanoValue v = {0};
@@ -155,6 +156,21 @@ static NanoValue mk_value(unsigned mask, uint32_t *len_out)
         if (in_k < n) c->captures[in_k] = leaf;
         *len_out = n;
         v.as.closure = c;
+    } else if ((mask & M_HASHMAP) && kind == M_HASHMAP) {
+        v.tag = TAG_HASHMAP;
+        VmHashMap *h = malloc(sizeof(VmHashMap)); __CPROVER_assume(h != NULL);
+        h->header.ref_count = mk_rc(); h->header.obj_type = TAG_HASHMAP;
+        h->bucket_count = 2;                      /* B: two buckets, chains of length <= 1 */
+        h->buckets = malloc(2 * sizeof(VmHMEntry *)); __CPROVER_assume(h->buckets != NULL);
+        __CPROVER_assume(h->count <= 2);
+        for (int bi = 0; bi < 2; bi++) {
+            if (nondet_bool()) { h->buckets[bi] = NULL; continue; }
+            VmHMEntry *e = malloc(sizeof(VmHMEntry)); __CPROVER_assume(e != NULL);
+            e->key = mk_leaf(); e->value = mk_leaf(); e->next = NULL;
+            h->buckets[bi] = e;
+        }
+        *len_out = h->count;
+        v.as.hashmap = h;
     } else {
         return mk_scalar();
     }
@@ -236,7 +252,13 @@ static void build_state(void)
     vm->stack = malloc((size_t)in_stack_cap * sizeof(NanoValue)); __CPROVER_assume(vm->stack != NULL);
     __CPROVER_assume(vm->frame_count >= 1 && vm->frame_count <= VM_MAX_FRAMES);
     VmCallFrame *fr = &vm->frames[vm->frame_count - 1];
-    __CPROVER_assume(fr->fn_idx == f && fr->module == m && fr->closure == NULL);
+    in_k = nondet_u32();
+    __CPROVER_assume(fr->fn_idx == f && fr->module == m);
+    fr->closure = NULL;
+    if (((uint8_t)VERIF_OP == OP_LOAD_UPVALUE || (uint8_t)VERIF_OP == OP_STORE_UPVALUE) && nondet_bool()) {
+        uint32_t cl; NanoValue cv = mk_value(M_CLOSURE, &cl);
+        fr->closure = cv.as.closure;
+    }
     __CPROVER_assume(vm->global_count <= VM_MAX_GLOBALS);
     vm->linked_modules = NULL; vm->linked_module_count = 0; vm->linked_module_capacity = 0;
     vm->heap.intern_table = malloc(4 * sizeof(VmString *)); __CPROVER_assume(vm->heap.intern_table != NULL);
@@ -244,11 +266,39 @@ static void build_state(void)
     vm->output = NULL;
 
     /* footprint: top three slots */
-    in_k = nondet_u32();
     in_v0 = mk_value(VERIF_M0, &in_len0); in_v1 = mk_value(VERIF_M1, &in_len1); in_v2 = mk_value(VERIF_M2, &in_len2);
     if (in_stack_size >= 1) vm->stack[in_stack_size - 1] = in_v0;
     if (in_stack_size >= 2) vm->stack[in_stack_size - 2] = in_v1;
     if (in_stack_size >= 3) vm->stack[in_stack_size - 3] = in_v2;
+    {   /* addressed slots: the local / global named by the operand, if the step can reach it */
+        uint8_t K = (uint8_t)VERIF_OP;
+        uint32_t dummy;
+        if (K == OP_LOAD_LOCAL || K == OP_STORE_LOCAL) {
+            uint32_t xs = fr->stack_base + (uint16_t)(in_operand.b[1] | (in_operand.b[2] << 8));
+            if (xs < in_stack_size && (uint64_t)xs + 3 < in_stack_size) vm->stack[xs] = mk_value(M_ANY, &dummy);
+        }
+        if (K == OP_LOAD_GLOBAL || K == OP_STORE_GLOBAL) {
+            uint32_t gi = (uint32_t)in_operand.b[1] | ((uint32_t)in_operand.b[2] << 8) | ((uint32_t)in_operand.b[3] << 16) | ((uint32_t)in_operand.b[4] << 24);
+            if (gi < VM_MAX_GLOBALS) vm->globals[gi] = mk_value(M_ANY, &dummy);
+        }
+        /* the element of interest inside a container is the one the instruction addresses */
+        if (K == OP_STRUCT_GET || K == OP_STRUCT_SET || K == OP_UNION_FIELD || K == OP_TUPLE_GET)
+            __CPROVER_assume(in_k == (uint16_t)(in_operand.b[1] | (in_operand.b[2] << 8)));
+        if (K == OP_LOAD_UPVALUE || K == OP_STORE_UPVALUE)
+            __CPROVER_assume(in_k == (uint16_t)(in_operand.b[3] | (in_operand.b[4] << 8)));
+        if ((K == OP_ARR_GET || K == OP_ARR_REMOVE) && in_v0.tag == TAG_INT) __CPROVER_assume(in_k == (uint32_t)in_v0.as.i64);
+        if ((K == OP_ARR_GET || K == OP_ARR_REMOVE) && in_v0.tag != TAG_INT) __CPROVER_assume(in_k == 0);
+        if (K == OP_ARR_SET && in_v1.tag == TAG_INT) __CPROVER_assume(in_k == (uint32_t)in_v1.as.i64);
+        if (K == OP_ARR_SET && in_v1.tag != TAG_INT) __CPROVER_assume(in_k == 0);
+#ifdef VERIF_COUNT_MAX
+        /* handlers that pop `count` operands in a loop: the count operand is capped (bounded stand-in) */
+        if (K == OP_ARR_LITERAL) __CPROVER_assume((uint16_t)(in_operand.b[2] | (in_operand.b[3] << 8)) <= VERIF_COUNT_MAX);
+        if (K == OP_STRUCT_LITERAL) __CPROVER_assume((uint16_t)(in_operand.b[5] | (in_operand.b[6] << 8)) <= VERIF_COUNT_MAX);
+        if (K == OP_UNION_CONSTRUCT) __CPROVER_assume((uint16_t)(in_operand.b[7] | (in_operand.b[8] << 8)) <= VERIF_COUNT_MAX);
+        if (K == OP_TUPLE_NEW) __CPROVER_assume((uint16_t)(in_operand.b[1] | (in_operand.b[2] << 8)) <= VERIF_COUNT_MAX);
+        if (K == OP_CLOSURE_NEW) __CPROVER_assume((uint16_t)(in_operand.b[5] | (in_operand.b[6] << 8)) <= VERIF_COUNT_MAX);
+#endif
+    }
     g_m = m; g_vm = vm;
 }
 
